@@ -129,7 +129,9 @@ Proof.
   destruct (edns_version_max <? v); [intros E; inversion E; reflexivity|exact S].
 Qed.
 
-(* ---- refutations for the code before the two fixes --------------------------- *)
+(* ---- the code before fixes 4f39cd3 / a929056 (flags false): kept as statements
+   about those variants of the model; the witnesses are replayed by the harness
+   corpus as regressions --------------------------------------------------------- *)
 
 (* truncate not limiting the questions: a STATUS request with 100 questions,
    answered by a service that echoes them, leaves as 712 octets, TC set *)
@@ -274,3 +276,76 @@ Example tcp_ex :
               (SvcOk (mkMsg 5 129 0 [mkQ [[97]] 1 1] [] [] [])) = Ok (Some r) /\
             m_ar r = [RROpt (mkOpt 0 0 [0; 11; 0; 2; 1; 44])].
 Proof. eexists. split; [vm_compute; reflexivity|]. reflexivity. Qed.
+
+(* ---- the datagram receive buffer ----------------------------------------------- *)
+
+Lemma parse_flat_inv fuel : forall b acc used nm rest,
+  parse_flat fuel b acc used = inl (Some (nm, rest)) ->
+  exists n', nm = rev acc ++ n' /\ b = wire_abs n' ++ rest.
+Proof.
+  induction fuel as [|fuel IH]; intros b acc used nm rest H; [discriminate|].
+  cbn [parse_flat] in H. destruct b as [|h t]; [discriminate|].
+  destruct (N.eqb_spec h 0) as [E0|E0].
+  - inversion H; subst. exists []. rewrite app_nil_r. split; reflexivity.
+  - destruct (63 <? h); [discriminate|].
+    destruct (Nat.ltb_spec (length t) (N.to_nat h)) as [L|L]; [discriminate|].
+    destruct (254 <? used + 1 + N.to_nat h)%nat; [discriminate|].
+    apply IH in H. destruct H as (n'' & E1 & E2).
+    exists (firstn (N.to_nat h) t :: n''). split.
+    + rewrite E1. cbn [rev]. rewrite <- app_assoc. reflexivity.
+    + rewrite wire_abs_cons. rewrite firstn_length, Nat.min_l by exact L. rewrite N2Nat.id.
+      rewrite <- E2, firstn_skipn. reflexivity.
+Qed.
+
+Lemma decode_abs_inv w nm rest : decode_abs w = inl (Some (nm, rest)) -> w = wire_abs nm ++ rest.
+Proof. unfold decode_abs. intros H. apply parse_flat_inv in H. destruct H as (n' & -> & E). exact E. Qed.
+
+(* the questions parsed lie within the octets parsed *)
+Lemma parse_prefix_within n : forall w, qs_len (parse_questions_prefix n w) <= len w.
+Proof.
+  induction n as [|n IH]; intros w; [cbn; lia|].
+  cbn [parse_questions_prefix]. destruct (decode_abs w) as [[[nm r]|]|] eqn:E; try (cbn; lia).
+  destruct r as [|t1 [|t2 [|c1 [|c2 rest]]]]; try (cbn; lia).
+  apply decode_abs_inv in E. subst w. rewrite qs_len_cons. specialize (IH rest).
+  unfold wire_q. cbn [q_name q_type q_class]. rewrite !len_app. unfold be16, len in *. cbn [length] in *. lia.
+Qed.
+
+Lemma xreq_of_buffer_within b x : xreq_of_buffer b = Some x -> 12 + qs_len (x_qs x) <= len b.
+Proof.
+  unfold xreq_of_buffer, parse_header.
+  destruct b as [|i1 [|i2 [|b2 [|b3 [|q1 [|q2 [|a1 [|a2 [|n1 [|n2 [|r1 [|r2 rest]]]]]]]]]]]]; try discriminate.
+  destruct ((of_be16 a1 a2 =? 0) && (of_be16 n1 n2 =? 0) && (of_be16 r1 r2 =? 0)); [|discriminate].
+  intros E; inversion E; subst. cbn [x_qs].
+  pose proof (parse_prefix_within (N.to_nat (of_be16 q1 q2)) rest). unfold len in *. cbn [length]. lia.
+Qed.
+
+(* parsing only the octets received: a request is at least a header long and its
+   questions are the datagram's own *)
+Lemma dgram_received_only d x :
+  xreq_of_buffer (dgram_buffer_gen false d) = Some x -> 12 + qs_len (x_qs x) <= len d.
+Proof.
+  intros H. apply xreq_of_buffer_within in H. unfold dgram_buffer_gen in H.
+  unfold len in *. rewrite firstn_length in H. lia.
+Qed.
+
+(* parsing the whole buffer: a 12-octet datagram (STATUS, QDCOUNT 65535) becomes a
+   request with 202 questions made of padding, and is answered by 512 octets *)
+Definition pad_datagram : bytes := [18; 52; 16; 0; 255; 255; 0; 0; 0; 0; 0; 0].
+
+Lemma dgram_padding_refuted_gen fx fq eq :
+  exists x r, xreq_of_buffer (dgram_buffer_gen true pad_datagram) = Some x /\ cnt (x_qs x) = 202 /\
+    udp_server_gen fx fq eq x (Some 1232)
+      (SvcOk (mk_response (x_base x) 144 0 1 15 0 11 None)) = Ok (Some r) /\
+    len pad_datagram = 12 /\ 512 <= mlen r.
+Proof.
+  eexists. destruct fx, fq, eq;
+    (eexists; split; [vm_compute; reflexivity|]; split; [vm_compute; reflexivity|];
+     split; [vm_compute; reflexivity|]; split; [reflexivity|]; vm_compute; discriminate).
+Qed.
+
+(* every datagram, even an empty one, is a message when the whole buffer is parsed *)
+Lemma dgram_buffer_whole_len d : len (dgram_buffer_gen true d) = dgram_buf_len.
+Proof.
+  unfold dgram_buffer_gen, len. rewrite firstn_length, app_length, repeat_length.
+  rewrite Nat.min_l by lia. apply N2Nat.id.
+Qed.
